@@ -23,6 +23,19 @@ func upSpec(r *rng, i int, kind string) plan.UpstreamSpec {
 	}
 	switch kind {
 	case "udp":
+		if r.p(0.3) {
+			// the URL names a host where nothing listens; dial_addr is the
+			// server.  Both legs (UDP and the TCP retry) have to follow it.
+			ghost := fmt.Sprintf("10.1.0.%d", 200+i)
+			addr = ghost
+			if u.Port != defPort {
+				addr = fmt.Sprintf("%s:%d", ghost, u.Port)
+			}
+			u.DialAddr = u.Host
+			if u.Port != defPort || r.p(0.5) {
+				u.DialAddr = fmt.Sprintf("%s:%d", u.Host, u.Port)
+			}
+		}
 		if r.p(0.5) {
 			u.Addr = addr
 		} else {
